@@ -1462,7 +1462,7 @@ fn random(args: &Args, malformed: bool) {
         // one case in four starts with a unilateral close whose sweeps are spread over several
         // blocks (our output first), a reorg that removes the later sweep blocks, forget before or
         // after the reorg, and a burst up to the threshold: "swept once, not swept now"
-        if rng.chance(1, 4) {
+        if s.chans.is_empty() && rng.chance(1, 4) {
             let k: Key = (rng.below(2), *rng.pick(&[2u64, 4u64]));
             let mut pre: Vec<Op> = vec![Op::New(k), Op::Setup(k, SetupKind::Normal), Op::Add(vec![tid(0, F)])];
             let (groups, removes): (Vec<Vec<u64>>, usize) = match rng.below(6) {
